@@ -12,6 +12,25 @@ class RevokeStream(Stream):
     driver = "revoke"
     harness = HARNESS
 
+    def predicate(self, op, impl):
+        # verdicts are reported per case (with the whole history as the failing input), see case_predicate
+        return None
+
+    def case_predicate(self, ops, impls):
+        out, seen = [], set()
+        for o, a in zip(ops, impls):
+            if "!C04V:" in a:
+                r = a.split("!C04V:", 1)[1]
+                what, sig = (r.rsplit("#", 1) + [None])[:2] if "#" in r else (r, None)
+                if sig in seen:
+                    continue
+                seen.add(sig)
+                out.append({"what": what, "signature": sig})
+        return out
+
+    def norm_impl(self, op, impl):
+        return impl.split("!C04V:", 1)[0].split("!VIOL:", 1)[0]
+
     def nontrivial(self, op, impl):
         if op == "check":
             return False
@@ -24,7 +43,8 @@ class Seq(RevokeStream):
     name = "revoke-seq"
     testname = "TestVerifC04Seq"
     rule = ("random token forests (depth <= 4, fan-out <= 3, orphans) built through auth/token/create[-orphan], cubbyhole "
-            "writes and leased reads with some tokens, then 5-30 operations (create child, renew-self, cubbyhole write, "
+            "writes and leased reads with some tokens, tokens with caller-chosen ids (and re-creation of a revoked id, followed "
+            "by cubbyhole reads that must find nothing), then 5-30 operations (create child, renew-self, cubbyhole write, "
             "leased read, revoke by token / self / accessor / lease id / revoke-orphan, requesters and targets sometimes "
             "already revoked); after EVERY operation every token is probed with lookup-self and the token store, lease "
             "store, token-lease index, cubbyhole keys and the tokensPendingDeletion map are listed; every request's own "
@@ -64,7 +84,8 @@ class C04(PropCheck):
                   "revokeTreeInternal / storeCommon+create / RevokeByToken / ClearView / the revoke handlers "
                   "(Obao/Model/Revoke.lean, both spellings of the tokensPendingDeletion key). FULL, all histories / forests / "
                   "budgets: revoke_cascade_seq (after a successful cascading revocation the target and every non-orphaned "
-                  "descendant is dead and refused), revoked_stays_revoked, revoke_orphan_seq, revoke_restart (marker and "
+                  "descendant is dead and refused), destroy_clears_routed_key (create / router / destroyCubbyhole agree on the cubbyhole "
+                  "prefix for every token kind), revoked_stays_revoked, revoke_orphan_seq, revoke_restart (marker and "
                   "completed revocations are final across every crash prefix + restart). PARTIAL: revoke_fault_retry_partial "
                   "(finality for every fault position; full cascade for every position that leaves the store unchanged, i.e. all but failures past a marker write), "
                   "revoke_vs_create_race_partial (every schedule in which the creator's storeCommon lookup follows the marker "
